@@ -25,12 +25,14 @@ type GenConfig struct {
 	Closes          int  // max graceful shutdowns (Commander.Close with requests in flight, then a restart)
 	UniqueIKPct     int  // percentage of requests carrying an idempotency key of their own (never used before)
 	RevertByRef     bool // reverts may designate their target by the reference it was created under
+	WideBurstPct    int  // percentage of rounds that are 3-5 creates from @world with nothing in common (no account lock, no reference): several entries queue up behind the one being persisted
 	RefBurstPct     int  // percentage of rounds that are a burst of creates from @world with no account lock in common (sharing one reference when there is a reference pool)
 	Cancels         int
 	HandoffCancels  int // max callers that go away at the very moment their entry is handed to the batcher
 	Holds           int // max slow requests (held back for a stretch while everything else moves)
 	VarSourcesPct   int // percentage of rounds made of 3-5 creates that all use the one script whose two sources and destination are variables (one cached program, many bindings, @world among them; some sequential, some racing)
 	LongPrefixPct   int // percentage of histories whose funding prefix ends with one transaction of 13-24 postings (which reverts then aim at)
+	TickingClockPct int // percentage of histories in which the clock advances by a millisecond at every scheduler step (otherwise it stands still)
 	SmallBatches    bool
 	ExplicitTime    bool
 	FailingPct      int // share of creates that are meant to fail (compile error, ...)
@@ -83,7 +85,7 @@ func genCreate(t *rapid.T, cfg *GenConfig, op *Op) {
 		}
 		return
 	}
-	mode := rapid.SampledFrom([]string{"literal", "literal", "variable", "meta", "overdraft", "unbounded", "ordered", "multi", "postings", "balance", "fromworld", "sendall", "sendall-variable", "twice-named", "twice-named"}).Draw(t, "mode")
+	mode := rapid.SampledFrom([]string{"literal", "literal", "variable", "meta", "overdraft", "unbounded", "ordered", "multi", "postings", "balance", "balance-noted", "balance-noted", "fromworld", "sendall", "sendall-variable", "twice-named", "twice-named"}).Draw(t, "mode")
 	if mode == "meta" && !cfg.MetaNaming {
 		mode = "variable"
 	}
@@ -161,6 +163,9 @@ func genCreate(t *rapid.T, cfg *GenConfig, op *Op) {
 		op.Vars = map[string]string{"s": src}
 	case "balance":
 		op.Script = fmt.Sprintf("vars {\n  monetary $m = balance(@%s, %s)\n}\nsend $m (\n  source = @%s\n  destination = @%s\n)\n", src, asset, src, dst)
+	case "balance-noted":
+		// the balance of the paying account is looked up and written down, the amount sent is stated separately
+		op.Script = fmt.Sprintf("vars {\n  monetary $m = balance(@%s, %s)\n}\n", src, asset) + sendScript(amount, asset, "@"+src, "@"+dst) + "set_tx_meta(\"balance_before\", $m)\n"
 	case "fromworld":
 		op.Script = sendScript(amount, asset, "@world", "@"+dst)
 	}
@@ -275,12 +280,13 @@ func GenPlan(t *rapid.T, cfg GenConfig) *Plan {
 			}
 			continue
 		}
-		if cfg.RefBurstPct > 0 && rapid.IntRange(0, 99).Draw(t, "refBurst") < cfg.RefBurstPct {
+		wide := cfg.WideBurstPct > 0 && rapid.IntRange(0, 99).Draw(t, "wideBurst") < cfg.WideBurstPct
+		if wide || (cfg.RefBurstPct > 0 && rapid.IntRange(0, 99).Draw(t, "refBurst") < cfg.RefBurstPct) {
 			// a pure race on one reference: the requests have no account lock in common, so only the
 			// reference reservation and the store lookup order them; some of them are previews
 			ref := ""
 			for _, x := range cfg.RefPool {
-				if x != "" && (ref == "" || rapid.Bool().Draw(t, "burstRef")) {
+				if !wide && x != "" && (ref == "" || rapid.Bool().Draw(t, "burstRef")) {
 					ref = x
 				}
 			}
@@ -447,6 +453,9 @@ func GenPlan(t *rapid.T, cfg GenConfig) *Plan {
 	}
 	if cfg.SmallBatches && rapid.Bool().Draw(t, "smallBatch") {
 		p.BatchSize = rapid.IntRange(1, 3).Draw(t, "batchSize")
+	}
+	if cfg.TickingClockPct > 0 && rapid.IntRange(0, 99).Draw(t, "tickingClock") < cfg.TickingClockPct {
+		p.TickClock = true
 	}
 	p.SlowStore = rapid.IntRange(0, 2).Draw(t, "slowStore") == 0
 	p.CacheSize = rapid.SampledFrom([]int{1, 2, 1024}).Draw(t, "cacheSize")
